@@ -905,6 +905,7 @@ func (i *interpreter) unop(instr *ssa.UnOp, x value) value {
 			panic(runtimePanic{"invalid memory address or nil pointer dereference"})
 		}
 		i.guardCheck(p, false)
+		checkPoison(p)
 		return load(mustDeref(instr.X.Type()), p)
 	case token.NOT:
 		return !x.(bool)
@@ -1258,9 +1259,9 @@ func conv(t_dst, t_src types.Type, x value) value {
 	case *types.Pointer:
 		switch ut_dst := ut_dst.(type) {
 		case *types.Basic:
-			// *value to unsafe.Pointer?
+			// *value to unsafe.Pointer: the boxed pointer is kept as it is
 			if ut_dst.Kind() == types.UnsafePointer {
-				return unsafe.Pointer(x.(*value))
+				return x
 			}
 		}
 
@@ -1289,7 +1290,9 @@ func conv(t_dst, t_src types.Type, x value) value {
 		}
 
 	case *types.Basic:
-		x = widen(x)
+		if _, isPtr := x.(*value); !isPtr {
+			x = widen(x)
+		}
 
 		// integer -> string?
 		if ut_src.Info()&types.IsInteger != 0 {
@@ -1324,6 +1327,16 @@ func conv(t_dst, t_src types.Type, x value) value {
 		}
 
 		// unsafe.Pointer -> *value
+		if p, ok := x.(*value); ok && ut_src.Kind() == types.UnsafePointer {
+			// unsafe.Pointer that came from a *T: give the pointer back
+			if _, isPtr := ut_dst.(*types.Pointer); isPtr {
+				return p
+			}
+			if b, ok := ut_dst.(*types.Basic); ok && b.Kind() == types.UnsafePointer {
+				return p
+			}
+			unsupported("conversion of unsafe.Pointer to %s", t_dst)
+		}
 		if ut_src.Kind() == types.UnsafePointer {
 			// TODO(adonovan): this is wrong and cannot
 			// really be fixed with the current design.
